@@ -62,8 +62,8 @@ PROPS['C07'] = dict(
                'leave at the given path exactly the CRLF form of the text of THEIR image (file system as an explicit parameter; std File semantics '
                'assumed). Rendering by the ihex crate and the CRLF conversion itself are assumed and exercised only by a bounded native witness family.',
     level_note='assumes the ihex crate renders records correctly, std slice/Vec contracts, rewrite R5 (chunks/enumerate as index loop); '
-               'write_*_hex I/O wrapper covered by bounded witnesses only (each written over an existing, longer file at the same path: the '
-               'result must be the new file alone)',
+               'the std File operations behind write_*_hex are assumed (truncate-or-create, append), the CRLF conversion is uninterpreted: '
+               'bounded witnesses write over a longer / empty / truncated / identical file at the same path: the result must be the new file alone',
     technique='Verus loop invariant + postcondition against a spec-level Intel HEX reader, on the extracted function',
     verus=['hex'],
     witnesses=witnesses_c07,
